@@ -805,27 +805,47 @@ LIFE_ALPHA = ["connect", "op_ok", "op_raise_reply", "op_raise_arg", "disconnect"
               "aexit_exc", "op_eof", "op_rst"]
 
 
+def life_allowed(a: str, connected: bool, entered: bool) -> bool:
+    """Well-behaved use: no connect while connected, operations only while connected, and the async context is left
+    only after it has been entered successfully (Python never calls __aexit__ otherwise)."""
+    if a in ("connect", "refused"):
+        return not connected
+    if a == "aenter":
+        return not connected and not entered
+    if a in ("aexit", "aexit_exc"):
+        return entered
+    if a == "disconnect":
+        return True
+    return connected
+
+
+def life_next(a: str, connected: bool, entered: bool):
+    if a == "connect":
+        return True, entered
+    if a == "aenter":
+        return True, True
+    if a == "refused":
+        return False, entered
+    if a == "disconnect":
+        return False, entered
+    if a in ("aexit", "aexit_exc"):
+        return False, False
+    return connected, entered
+
+
 def life_sequences(maxlen: int) -> List[tuple]:
-    """All well-behaved action sequences up to maxlen (no connect while connected, ops only while connected)."""
+    """All well-behaved action sequences up to maxlen."""
     out: List[tuple] = []
 
-    def rec(seq, connected):
+    def rec(seq, connected, entered):
         if seq:
             out.append(tuple(seq))
         if len(seq) == maxlen:
             return
         for a in LIFE_ALPHA:
-            if a in ("connect", "aenter", "refused"):
-                if connected:
-                    continue
-                rec(seq + [a], a != "refused")
-            elif a in ("disconnect", "aexit", "aexit_exc"):
-                rec(seq + [a], False)
-            else:
-                if not connected:
-                    continue
-                rec(seq + [a], True)
-    rec([], False)
+            if life_allowed(a, connected, entered):
+                rec(seq + [a], *life_next(a, connected, entered))
+    rec([], False, False)
     return out
 
 
@@ -893,18 +913,11 @@ def gen_c18_two(rng) -> Dict[str, Any]:
     per = []
     for ci in (0, 1):
         actions = []
-        connected = False
+        connected = entered = False
         for _ in range(rng.randrange(2, 9)):
-            opts = [a for a in LIFE_ALPHA if (
-                (a in ("connect", "aenter", "refused") and not connected) or
-                (a in ("disconnect", "aexit", "aexit_exc")) or
-                (a.startswith("op_") and connected))]
-            a = rng.choice(opts)
+            a = rng.choice([x for x in LIFE_ALPHA if life_allowed(x, connected, entered)])
             actions.append(a)
-            if a in ("connect", "aenter"):
-                connected = True
-            elif a in ("disconnect", "aexit", "aexit_exc"):
-                connected = False
+            connected, entered = life_next(a, connected, entered)
         st = life_steps(rng, actions, clients[ci])
         for s_ in st:
             s_["client"] = ci
@@ -928,18 +941,11 @@ def gen_c18(rng, index: Optional[int] = None, maxlen: int = 4, long: bool = Fals
         actions = cases[index % len(cases)]
     else:
         actions = []
-        connected = False
+        connected = entered = False
         for _ in range(rng.randrange(80, 200) if long else rng.randrange(1, 13)):
-            opts = [a for a in LIFE_ALPHA if (
-                (a in ("connect", "aenter", "refused") and not connected) or
-                (a in ("disconnect", "aexit", "aexit_exc")) or
-                (a.startswith("op_") and connected))]
-            a = rng.choice(opts)
+            a = rng.choice([x for x in LIFE_ALPHA if life_allowed(x, connected, entered)])
             actions.append(a)
-            if a in ("connect", "aenter"):
-                connected = True
-            elif a in ("disconnect", "aexit", "aexit_exc"):
-                connected = False
+            connected, entered = life_next(a, connected, entered)
     steps = life_steps(rng, actions, clients[0])
     if rng.random() < 0.7 and steps[-1]["kind"] not in ("disconnect", "aexit"):
         steps.append({"kind": "disconnect", "client": 0})
